@@ -32,6 +32,9 @@ RULE = ("op sequences over a small name/value alphabet with case variants, valid
         "(add/set/del/get/get_list/in/parse_line); "
         "non-trivial = at least one name holds >=2 values or a cached read precedes a mutation; distinct by canonical JSON")
 EXHAUSTIVE = {"quick": False, "thorough": False}
+CLAUSE_CAVEATS = [
+    "present_deletable is immediate from the model's definition of delete after the fix (it does not need reachability); the substance is model fidelity, established by the tie and the revert-fix mutant",
+]
 CLAUSES = {
     "behaves like an insertion-ordered multimap keyed by case-insensitive name":
         "refines_multimap + normalize_eq_iff_lower_eq + normalize_case_variants (all names, not only letters-and-hyphens; "
